@@ -518,6 +518,15 @@ func (r *run) resetScenario(V *Node, chainBlocks []*block.Block, cp *CrashPlan) 
 	if int(L)-cp.ResetBack > 1 {
 		target = L - uint32(cp.ResetBack)
 	}
+	// one reset in three of a chain that has stored header hash pages (16 headers under the verif build tag) goes back to
+	// the last height of a page or the first of the next one: the page arithmetic of the reset sits on its boundaries
+	if L > 17 && r.tape.Chance(1, 3) {
+		edge := (L-1)/16*16 - 1 + uint32(r.tape.Choose(2))
+		if edge >= 1 && edge < L {
+			target = edge
+			r.out.Probes["reset_to_header_page_edge"]++
+		}
+	}
 	V.Stop()
 	B := V.Disk.Batches()
 	kind := cp.ImageKind
